@@ -17,6 +17,7 @@ def dispatch (stdin stdout : IO.FS.Stream) (line : String) : IO String := do
   | "plushy" :: args => pure (PlushyFam.handle args)
   | "push" :: args => pure (PushFam.handle args)
   | "builder" :: args => pure (BuilderFam.handle args)
+  | "lexspec" :: args => pure (SelFam.handleSpec args)
   | "ping" :: _ => pure "pong"
   | _ => pure "bad-family"
 
